@@ -14,6 +14,7 @@
 -/
 import MainlineModel.Props.C06
 import MainlineModel.Props.C02Events
+import MainlineModel.Props.C06Puts
 namespace Mainline.Props.C06Once
 open Mainline Mainline.Actor
 
@@ -576,5 +577,36 @@ example (env : Env) (t : Id) : (runCallers [⟨env, none, some (.get .findNode t
   simp [runCallers, msgCallers, senderCaller]
 
 example : closings [Event.value 1 (.immutable []), .putResult 2 (.error .conflictRisk), .closed 1, .nodes 4 []] = [2, 1, 4] := rfl
+
+
+/-- **C06, exactly once.**  Take any run of a node from its creation under the conditions of
+    `C06Puts.reachable_quiescent` (monotone clock, request timeouts at or below `T`, no wrap of the id
+    counter; every request in the table at least `T` old at the next tick, no put still waiting for its
+    lookup).  After that tick the callers answered so far are exactly the callers the API calls of
+    the run brought — each call has been answered, and when the calls have their own channels, each
+    exactly once. -/
+theorem exactly_once_at_quiescence (T : Nat) (cfg : NodeConfig) (seed : UInt64) (t0 : Nat)
+    (hb0 : cfg.firstTid % two32 + (Actor.create cfg seed t0).out.length < two32)
+    (ins : List Actor.StepIn) (hok : C06Time.RunOk T (Actor.create cfg seed t0) t0 ins) (env : Env)
+    (hnow : C06Time.endNow t0 ins ≤ env.now)
+    (hb : (Actor.runSteps (Actor.create cfg seed t0) ins).sock.nextTid +
+      (((Actor.runSteps (Actor.create cfg seed t0) ins).afterRecv env none).out.length -
+        (Actor.runSteps (Actor.create cfg seed t0) ins).out.length) < two32)
+    (hT : (Actor.runSteps (Actor.create cfg seed t0) ins).sock.timeout ≤ T)
+    (hdue : ∀ r ∈ (Actor.runSteps (Actor.create cfg seed t0) ins).sock.requests, r.sentAt + T ≤ env.now)
+    (hstarted : ∀ p ∈ (Actor.runSteps (Actor.create cfg seed t0) ins).core.puts, p.2.q.inflight ≠ []) :
+    (closings ((Actor.runSteps (Actor.create cfg seed t0) ins).afterRecv env none).events).Perm (runCallers ins) ∧
+    ((runCallers ins).Nodup →
+      (closings ((Actor.runSteps (Actor.create cfg seed t0) ins).afterRecv env none).events).Nodup) := by
+  obtain ⟨_, _, hg, hp⟩ := C06Puts.reachable_quiescent T cfg seed t0 hb0 ins hok env hnow hb hT hdue hstarted
+  obtain ⟨k0, e0⟩ := create_ledger cfg seed t0
+  obtain ⟨k1, q1⟩ := run_ledger ins _ k0
+  rw [e0, List.nil_append] at q1
+  obtain ⟨_, q2⟩ := afterRecv_same (Actor.runSteps (Actor.create cfg seed t0) ins) env none k1
+  have hl : ledger ((Actor.runSteps (Actor.create cfg seed t0) ins).afterRecv env none) =
+      closings ((Actor.runSteps (Actor.create cfg seed t0) ins).afterRecv env none).events := by
+    simp only [ledger, putParked, getParked, hg, hp, List.flatMap_nil, List.nil_append]
+  rw [hl] at q2
+  exact ⟨q2.trans q1, fun h => (q2.trans q1).nodup_iff.mpr h⟩
 
 end Mainline.Props.C06Once
